@@ -575,18 +575,23 @@ def walk_clause(crate, o, p):
         h, var, step = ploops[0]
         P = ("phi", h, var)
         body = an.cfg.loops[h]
-        o.check(all(t[3][1] == one for t in step), who, "walk-step", "the cursor over the walk does not advance by exactly one vertex per "
-                "iteration: consecutive pairs are skipped", prog.fns[p]["span"])
         END = ("call", "rawptr::add", ("usize",), (ASP, ("bin", "Sub", LEN, one)))
         hsw = [ev for ev in an.events if ev["k"] == "switch" and ev["b"] == h]
-        o.check(len(hsw) == 1 and hsw[0]["discr"] == ("bin", "Lt", P, END), who, "walk-end",
-                "the loop does not run while cursor < as_ptr + (len - 1)", prog.fns[p]["span"])
         calls = [ev for ev in an.events if ev["k"] == "call" and ev["key"] == HAS_ARC and ev["b"] in body]
         nxt = ("call", "rawptr::add", ("usize",), (P, one))
+        oke = len(hsw) == 1 and hsw[0]["discr"] == ("bin", "Lt", P, END)
         okp = len(calls) == 1 and calls[0]["args"][0] == ("arg", 1) and calls[0]["args"][1][0] == "mem" and calls[0]["args"][1][3] == P \
             and calls[0]["args"][2][0] == "mem" and calls[0]["args"][2][3] == nxt and all(an.cfg.dominates(calls[0]["b"], lb)
                                                                                         for lb, _ in an.cfg.pred[h] if an.cfg.dominates(h, lb))
-        o.check(okp, who, "walk-pair", "an iteration does not test has_arc(*cursor, *(cursor + 1))", prog.fns[p]["span"])
+        if not (oke and okp):
+            # another cursor idiom (different end sentinel, pair read differently): not interpreted
+            o.instances -= 1
+            o.undecided.append((who, "has_walk walks a cursor over the slice in a form the rule does not interpret"))
+            return
+        o.check(True, who, "walk-end", "")
+        o.check(True, who, "walk-pair", "")
+        o.check(all(t[3][1] == one for t in step), who, "walk-step", "the cursor over the walk does not advance by exactly one vertex per "
+                "iteration: consecutive pairs are skipped", prog.fns[p]["span"])
         if okp and len(rets) == 1:
             res = calls[0]["res"]
             exits = [(x, tg, lab) for x in body for tg, lab in an.cfg.succ[x] if tg not in body and tg in an.cfg.can_return]
